@@ -61,7 +61,10 @@ func extractFontType1(c pdf.Cursor, obj pdf.Object) (*dict.Type1, error) {
 	// (e.g. "MinionMM_366_465_11_"). We don't translate underscores back to
 	// spaces, since this convention is not mandated by the specification.
 
-	d.Name, _ = c.Name(fontDict["Name"])
+	d.Name, err = c.Name(fontDict["Name"])
+	if pdf.IsReadError(err) {
+		return nil, err
+	}
 
 	// StdInfo will be non-nil, if the PostScript name indicates one of the
 	// standard 14 fonts. In this case, we use the corresponding metrics as
@@ -117,7 +120,11 @@ func extractFontType1(c pdf.Cursor, obj pdf.Object) (*dict.Type1, error) {
 	if fd != nil {
 		defaultWidth = fd.MissingWidth
 	}
-	if !getSimpleWidths(d.Width[:], c, fontDict, defaultWidth) && stdInfo != nil {
+	ok, err := getSimpleWidthsErr(d.Width[:], c, fontDict, defaultWidth)
+	if err != nil {
+		return nil, err
+	}
+	if !ok && stdInfo != nil {
 		for c := range 256 {
 			name := enc(byte(c))
 			if name == encoding.UseBuiltin {
@@ -131,7 +138,10 @@ func extractFontType1(c pdf.Cursor, obj pdf.Object) (*dict.Type1, error) {
 		}
 	}
 
-	d.ToUnicode, _ = pdf.Decode(c, fontDict["ToUnicode"], cmap.ExtractToUnicode)
+	d.ToUnicode, err = pdf.Decode(c, fontDict["ToUnicode"], cmap.ExtractToUnicode)
+	if pdf.IsReadError(err) {
+		return nil, err
+	}
 
 	repairType1(d, c.Getter())
 
